@@ -413,6 +413,23 @@ def run_check(prop, tier, replay=None):
                 key = {k: sc[k] for k in ("n", "single", "slice", "lazy", "wrap", "fail", "selfOpt", "sliceOpt", "order", "regOrder", "kinds", "lookups")}
                 nontrivial = any(sc["single"]) or any(sc["slice"])
                 run.count_case(key, nontrivial)
+        if prop == "C09" and replay is None:
+            # C09 also quantifies over unsatisfiable injection points and over loader / Init / runner faults:
+            # the same property operators, on the resolution pipeline (Resolve.tla) and on App.Run (App.tla)
+            import check_resolve, check_app, resolve_lib as rl, app_lib as al
+            n = 400 if tier == "quick" else 6000
+            rscs = []
+            for i in range(n):
+                for s in rl.with_orders(rng, rl.rand_scenario(rng, "C09", "C09-res%d" % i, max_prov=rng.choice([2, 4, 6])), 2):
+                    s["split"] = rng.random() < 0.5
+                    s["seed"] = rng.randint(0, 2 ** 31)
+                    rscs.append(s)
+            drift += check_resolve.real_phase(run, "C09", tier, workdir, binary, rscs,
+                                              ["C09_NoPanic", "C09_RequiredFails", "C09_OptionalHarmless"], [], tag="res")
+            ascs = [al.scenario(rng, "C09-app%d" % i, "C09") for i in range(n)]
+            drift += check_app.real_phase(run, "C09", tier, workdir, binary, ascs,
+                                          ["C09_NoRunnerAfterFailure", "C13_ErrorReported", "C13_StopAtError"],
+                                          ["M_WellFormed", "C09_NoRunnerAfterFailure", "C13_ErrorReported", "C13_StopAtError", "M_C09_NoPanic"], [], tag="app")
         run.cov["rule"] = ("scenarios = resolved dependency graph x lazy set x substitution mode x fault x candidate/registration order x "
                            "edge realisation (by name / by type / qualified slice) x post-run lookups; a scenario is non-trivial when "
                            "its graph has at least one edge; distinct = distinct scenario records")
